@@ -63,6 +63,13 @@ func newNameWorldFor(prog *load.Program, moqPkg string) (*nameWorld, error) {
 	}
 	// types.Universe.Lookup(name): decided for constants, explored name by name for a symbolic name
 	w.m.ExtVars["go/types.Universe"] = &interp.Opaque{Kind: "types.Scope", ID: "universe", GoType: "*go/types.Scope", Methods: mmap{
+		"Names": func(m *interp.Machine, pos token.Pos, a []interp.Value) (interp.Value, error) {
+			l := &interp.List{}
+			for _, n := range types.Universe.Names() {
+				l.Elems = append(l.Elems, interp.Lit(n))
+			}
+			return l, nil
+		},
 		"Lookup": func(m *interp.Machine, pos token.Pos, a []interp.Value) (interp.Value, error) {
 			s, ok := a[0].(*interp.Sym)
 			if !ok {
